@@ -286,6 +286,26 @@ pub fn run(ctx: &Ctx) -> Report {
         st.engine_errors.extend(errs);
         rep.part("one failing xattr / chown call (EPERM, ENOTSUP, ENOSPC, ERANGE) at each such call of a three-file copy: the other files keep everything", st, serde_json::json!({"sites": nsites}));
     }
+    // schedule search with the transfers switched off: "default mode, current time" must hold under every schedule
+    // too (anything process-wide that a thread changes for a moment, the umask for one, shows up here only)
+    {
+        let mut jobs = vec![];
+        for d in drivers() {
+            for flags in [vec!["--no-perms"], vec!["--no-perms", "--no-timestamps"]] {
+                let mut s = sets::s1_driver(d, 2);
+                for f in flags.iter().rev() {
+                    s.args.insert(0, f.to_string());
+                }
+                s.name = format!("{}-[{}]", s.name, flags.join(" "));
+                let s = std::sync::Arc::new(s);
+                for b in base_specs() {
+                    jobs.push((s.clone(), b, if ctx.quick() { 1usize } else { 2 }));
+                }
+            }
+        }
+        let st = explore(&ctx.pool, jobs, j);
+        rep.part("schedule search on a small tree with --no-perms (and --no-timestamps)", st, serde_json::json!({"d": if ctx.quick() { 1 } else { 2 }}));
+    }
     // schedule search on multi-block files: metadata must survive any completion order of the blocks
     let cj: Judge = &c06::judge;
     for (name, jobs) in sets::schedule_jobs_level(if ctx.quick() { 0 } else { 1 }, &|s| s).into_iter().filter(|(n, _)| n.starts_with("S2") || n.starts_with("S3") || n.starts_with("tiny")) {
